@@ -1499,13 +1499,13 @@ def translate_powloop(repo, cfg, index):
     src = open(os.path.join(repo, cfg['file'])).read()
     text, l0, l1 = find_fn(src, cfg['impl'], cfg['fn'])
     info = dict(file=cfg['file'], fn=cfg['fn'], lines=[l0, l1], sha256=hashlib.sha256(text.encode()).hexdigest())
-    m = re.fullmatch(r'\{\s*let\s+mut\s+(\w+)\s*=\s*Self::ONE\s*;\s*let\s+mut\s+(\w+)\s*=\s*\*self\s*;\s*'
-                     r'for\s+(\w+)\s+in\s+(\w+)\s*\{\s*for\s+(\w+)\s+in\s+0\s*\.\.\s*64\s*(\{.*\})\s*\}\s*(\w+)\s*\}',
+    m = re.fullmatch(r'\{\s*let\s+mut\s+(\w+)\s*=\s*(?:Self::ONE|Fq::ONE|(?:Self|Fq)::from\(\s*1u64\s*\)|(?:Self|Fq)::one\(\))\s*;\s*let\s+mut\s+(\w+)\s*=\s*\*self\s*;\s*'
+                     r'for\s+&?(\w+)\s+in\s+(\w+)(?:\.as_ref\(\))?(?:\.iter\(\))?\s*\{\s*for\s+(\w+)\s+in\s+0\s*\.\.\s*64\s*(\{.*\})\s*\}\s*(\w+)\s*\}',
                      re.sub(r'//[^\n]*', '', text), re.S)
     if not m:
         raise Untranslatable('not the shape `acc = ONE; ins = *self; for limb in limbs { for i in 0..64 { … } } acc`')
     acc, ins, limb, limbs, i, body, result = m.groups()
-    sig = re.search(r'fn\s+%s\s*\(\s*&self\s*,\s*(\w+)\s*:' % cfg['fn'], src)
+    sig = re.search(r'fn\s+%s\b[^(]*\(\s*&self\s*,\s*(\w+)\s*:' % cfg['fn'], src)
     if not sig or sig.group(1) != limbs or result != acc:
         raise Untranslatable('signature / result of the power loop')
     stmts = Parser(tokenize(body)).block()
@@ -1586,6 +1586,9 @@ TARGETS = [
     dict(name='ark_sqrt_ratio_zeta', file='src/ark_curve/invsqrt.rs', impl=r'impl\s+Fq\s*\{', fn='sqrt_ratio_zeta', sark=True, mode='option', ret='tuple',
          params='(num den : Nat)', env={'num': ('num', 'fq'), 'den': ('den', 'fq')}, new_order=None, fallback='sqrtRatioArk num den', lean_ret='Option (Bool × Nat)'),
     dict(name='min_pow_le_limbs_step', file='src/min_curve/invsqrt.rs', impl=r'impl\s+Fq\s*\{', fn='pow_le_limbs', powloop=True,
+         params='(limb i : Nat) (acc ins : Nat)', lean_ret='Nat × Nat', mode='pure', ret='fq', env={}, new_order=None,
+         fallback='(if (limb / 2 ^ i) % 2 == 1 then fmul q acc ins else acc, fmul q ins ins)'),
+    dict(name='fq_power_step', file='src/fields/fq.rs', impl=r'impl\s+Fq\s*\{', fn='power', powloop='fq_power',
          params='(limb i : Nat) (acc ins : Nat)', lean_ret='Nat × Nat', mode='pure', ret='fq', env={}, new_order=None,
          fallback='(if (limb / 2 ^ i) % 2 == 1 then fmul q acc ins else acc, fmul q ins ins)'),
     dict(name='min_our_sqrt', file='src/min_curve/invsqrt.rs', impl=r'impl\s+Fq\s*\{', fn='our_sqrt', oursqrt=True,
@@ -1748,9 +1751,10 @@ def main():
         parts.append('/-- %s -/' % doc)
         parts.append('def %s %s : %s :=\n%s\n' % (cfg['name'], cfg['params'], cfg['lean_ret'], body))
         if cfg.get('powloop'):
-            parts.append('/-- the loop skeleton of `pow_le_limbs`: `for limb in limbs { for i in 0..64 { step } }` from (ONE, *self), result `acc` -/')
-            parts.append('def min_pow_le_limbs (x : Nat) (limbs : List Nat) : Nat :=\n'
-                         '  (limbs.foldl (fun st limb => (List.range 64).foldl (fun st i => min_pow_le_limbs_step limb i st.1 st.2) st) (1, x)).1\n')
+            loop = cfg['powloop'] if isinstance(cfg['powloop'], str) else 'min_pow_le_limbs'
+            parts.append('/-- the loop skeleton of `%s`: `for limb in limbs { for i in 0..64 { step } }` from (ONE, *self), result `acc` -/' % cfg['fn'])
+            parts.append('def %s (x : Nat) (limbs : List Nat) : Nat :=\n'
+                         '  (limbs.foldl (fun st limb => (List.range 64).foldl (fun st i => %s limb i st.1 st.2) st) (1, x)).1\n' % (loop, cfg['name']))
         if cfg['name'] == 'min_neg':
             parts.append('/-- the translated addition / doubling of the minimal backend on `Ext` values -/')
             parts.append('def addG (a b : Ext) : Ext := min_add a.X a.Y a.Z a.T b.X b.Y b.Z b.T')
